@@ -5,7 +5,8 @@ REGISTRY: list = []
 
 
 class Harness:
-    def __init__(self, fn, prop, name, cases, tier, float_mode, subst, feas_ms, check_ms, kind, fp_refute):
+    def __init__(self, fn, prop, name, cases, tier, float_mode, subst, feas_ms, check_ms, kind, fp_refute, quick=None, state_only=False, budget_s=None, stubs=None):
+        self.stubs = stubs or {}  # environment-boundary callees replaced by their contract in BOTH modes
         self.fn = fn
         self.prop = prop
         self.name = name or fn.__name__
@@ -17,16 +18,47 @@ class Harness:
         self.check_ms = check_ms
         self.kind = kind  # 'contract' | 'lemma' | 'cover'
         self.fp_refute = fp_refute
+        self.quick = quick  # predicate over a case tuple: run it in the quick tier?
+        self.state_only = state_only  # counter-models are over ghost/abstract state: no native replay
+        self.budget_s = budget_s
 
     def case_list(self):
         return self.cases if self.cases is not None else [()]
 
+    def in_tier(self, case, tier):
+        if tier == "thorough":
+            return True
+        if self.tier != "quick":
+            return False
+        return self.quick is None or bool(self.quick(*case))
+
 
 def harness(prop, name=None, cases=None, tier="quick", float_mode="real", subst=None,
-            feas_ms=1500, check_ms=20000, kind="contract", fp_refute=False):
+            feas_ms=1500, check_ms=20000, kind="contract", fp_refute=False, quick=None,
+            state_only=False, budget_s=None, stubs=None):
     def deco(fn):
-        h = Harness(fn, prop, name, cases, tier, float_mode, subst, feas_ms, check_ms, kind, fp_refute)
+        h = Harness(fn, prop, name, cases, tier, float_mode, subst, feas_ms, check_ms, kind, fp_refute, quick, state_only, budget_s, stubs)
         REGISTRY.append(h)
         fn.__harness__ = h
+        return fn
+    return deco
+
+
+NATIVE: list = []
+
+
+class NativeCheck:
+    """A check that runs the real code natively on concrete, seeded inputs.  Used for the
+    parts of a property that rest on a *trusted* library contract (e.g. the logging
+    format): it validates the assumed contract against the real code on every run.
+    Bounded by construction; never counted as a discharged obligation."""
+
+    def __init__(self, fn, prop, name, tier):
+        self.fn, self.prop, self.name, self.tier = fn, prop, name or fn.__name__, tier
+
+
+def native(prop, name=None, tier="quick"):
+    def deco(fn):
+        NATIVE.append(NativeCheck(fn, prop, name, tier))
         return fn
     return deco
